@@ -177,7 +177,7 @@ func lzN(x *smt.Term, w int) *smt.Term {
 func pureExternal(name string) bool {
 	for _, p := range []string{"strings.", "strconv.", "fmt.Sprint", "fmt.Sprintf", "unicode/utf8.", "unicode.", "path.", "path/filepath.Clean",
 		"errors.Is", "errors.As", "errors.Unwrap", "(*strings.Builder)", "bytes.Equal", "bytes.Compare", "bytes.IndexByte", "bytes.HasPrefix",
-		"time.Duration", "(time.Duration)", "(time.Time)", "time.Unix", "io/fs.FileMode", "(io/fs.FileMode)", "math.", "sort.Search",
+		"context.Background", "context.TODO", "context.WithValue", "(context.", "(*context.", "time.Duration", "(time.Duration)", "(time.Time)", "time.Unix", "io/fs.FileMode", "(io/fs.FileMode)", "math.", "sort.Search",
 		"(reflect.Type)", "reflect.TypeOf", "hash/crc32.", "crypto/sha256.Sum256", "encoding/hex.", "os.IsNotExist", "(*errors.", "(*fmt.wrapError)",
 		"internal/", "syscall.Errno", "(syscall.Errno)", "runtime.Caller", "runtime.FuncForPC", "runtime/debug.Stack", "(*runtime.Func)",
 	} {
